@@ -1,4 +1,6 @@
 """C10 — a Bar always lasts exactly its time signature, or its construction fails."""
+import math
+
 from hypothesis import strategies as st
 
 from pbt import build, gens, oracles as O
@@ -8,7 +10,7 @@ from pbt.sut import Bar, BarException, Key
 
 ID = "C10"
 MIN_NONTRIVIAL = 0.5
-RULE = ("Hypothesis: (sequence, numerator 1..16, denominator in {1,2,4,8,16,32}, key or None); the sequence's duration is drawn "
+RULE = ("Hypothesis: (sequence, numerator, denominator in {1,2,3,4,6,8,12,16,24,32,48,64,96,128} with 96*num/den a whole number of ticks, key or None); the sequence's duration is drawn "
         "relative to the capacity 96*num/den (shorter, equal, +1 tick, much longer, and between the capacity and 24x the "
         "capacity, where a quarter-note/tick confusion hides); 0, 1 matching, 1 conflicting, 2 different, matching + "
         "conflicting or duplicate identical signature events at tick 0 or mid-sequence; any construction route. Oracle: "
@@ -23,8 +25,9 @@ TIERS = {"quick": dict(shards=8, examples=1200), "thorough": dict(shards=16, exa
 
 @st.composite
 def _case(draw):
-    den = draw(st.sampled_from([1, 2, 4, 8, 16, 32]))
-    num = draw(st.integers(1, 16))
+    den = draw(st.sampled_from([1, 2, 4, 8, 16, 32, 4, 8, 64, 128, 3, 6, 12, 24, 48, 96]))
+    # numerators for which the capacity 96*num/den is a whole number of ticks (the bar can last "exactly" that long)
+    num = draw(st.integers(1, 16).map(lambda n: n * (den // math.gcd(96, den))))
     cap = 96 * num // den
     mode = draw(st.sampled_from(["shorter", "equal", "plus1", "longer", "confusion", "free"]))
     if mode == "shorter":
@@ -45,7 +48,8 @@ def _case(draw):
     notes = [n for n in notes if n[3] <= target]
     sigs = draw(st.sampled_from(["none", "none", "match", "match-mid", "conflict", "conflict-mid", "two-different",
                                  "match+conflict", "duplicate"]))
-    other = draw(st.tuples(st.integers(1, 16), st.sampled_from([2, 4, 8, 16])).filter(lambda v: v != (num, den)))
+    other = draw(st.one_of(st.tuples(st.integers(1, 16), st.sampled_from([2, 4, 8, 16])), st.just((2 * num, 2 * den)),
+                           st.just((num, 2 * den))).filter(lambda v: v != (num, den)))
     mid = draw(st.integers(0, max(0, target)))
     mid2 = draw(st.integers(0, max(0, target)).filter(lambda t: t != mid)) if target > 0 else None
     meta = []
